@@ -126,15 +126,23 @@ class GateReplacer(Visitor):
         return BlockStatement(
             parallel=block.parallel,
             subcircuit=block.subcircuit,
-            iterations=self.visit(block.iterations),
+            iterations=self.visit_count(block.iterations),
             statements=statements,
         )
 
     def visit_LoopStatement(self, loop: LoopStatement):
         return LoopStatement(
-            iterations=self.visit(loop.iterations),
+            iterations=self.visit_count(loop.iterations),
             statements=self.visit(loop.statements),
         )
+
+    def visit_count(self, count):
+        """Substitute into a loop or subcircuit count; what a macro argument
+        puts there must be an integer."""
+        new_count = filter_float(self.visit(count))
+        if new_count is not None and not isinstance(new_count, (int, AnnotatedValue)):
+            raise JaqalError(f"Cannot expand macro: count {new_count} is not an integer")
+        return new_count
 
     def visit_GateStatement(self, gate: GateStatement):
         new_parameters = {
